@@ -54,7 +54,35 @@ namespace BitSerializer::Detail
 			return true;
 		}
 
+		// When the stream does not support seeking at all (e.g. a pipe or a socket), moving forward is still possible by reading
+		if (pos > mStreamPos && mStream.rdbuf()->pubseekoff(0, std::ios_base::cur, std::ios_base::in) == std::streampos(std::streamoff(-1)))
+		{
+			mStream.clear();
+			mStartDataPtr = mEndDataPtr = mBuffer;
+			while (mStreamPos < pos)
+			{
+				mStream.read(mBuffer, static_cast<std::streamsize>(std::min(chunk_size, pos - mStreamPos)));
+				const auto lastReadSize = static_cast<size_t>(mStream.gcount());
+				if (lastReadSize == 0) {
+					return false;
+				}
+				mStreamPos += lastReadSize;
+			}
+			ReadNextChunk();
+			return true;
+		}
+
 		return false;
+	}
+
+	bool CBinaryStreamReader::Prefetch(size_t blockSize)
+	{
+		if (blockSize > chunk_size) {
+			return false;
+		}
+		// `ReadNextChunk()` moves unread data to the beginning of the buffer and appends new data after it
+		while (mStartDataPtr + blockSize > mEndDataPtr && ReadNextChunk()) {}
+		return mStartDataPtr + blockSize <= mEndDataPtr;
 	}
 
 	std::optional<char> CBinaryStreamReader::PeekByte()
